@@ -25,7 +25,7 @@ RULE = (
     "computed), W4 first build_trees, W5 rebuild for other edges of the same bin count (W5f: forced), W6 rebuild binned->unbinned, W7 "
     "CorrFunc.to_file over an older file, W8 CorrData.to_files over older files, W9 Configuration.to_file over an older "
     "file} x every crash point = entry of every mutating file-system call (mkdir, creating/truncating openat, write, "
-    "pwrite64, unlink, rmdir, rename, ftruncate) of the recorded workload (W1 | W2, W5, W7, W9 additionally with SIGINT instead of SIGKILL: death by KeyboardInterrupt with stack unwinding; W7L | W1L, W2L, W5L, W9L: KeyboardInterrupt before every executed line of library code of the step), injected with strace "
+    "pwrite64, unlink, rmdir, rename, ftruncate) of the recorded workload (W1 | W2, W5, W7, W9 additionally with SIGINT instead of SIGKILL: death by KeyboardInterrupt with stack unwinding; W7L, W7nL (no file at the path before) | W1L, W2L, W5L, W9L, W7n: KeyboardInterrupt before every executed line of library code of the step), injected with strace "
     "inject=<call>:signal=KILL:when=<ordinal> under a -P path filter. Oracle (another process): each use of what survived "
     "either raises or behaves like the completed or the never-started step: catalog holds one of the complete record "
     "sets, measurements equal those on fresh caches, files read back as the old or the new object as a whole. "
@@ -39,8 +39,8 @@ ASSUMPTIONS = [
     "sequential pipeline only (YAW_NUM_THREADS=1)",
 ]
 
-QUICK = ("W1", "W2", "W5f", "W7", "W8", "W2p", "W1b", "W7L")
-ALL = ("W1", "W2", "W3", "W4", "W5", "W5f", "W6", "W7", "W8", "W9", "W1p", "W2p", "W1b", "W1P", "W7L", "W9L", "W1L", "W2L", "W5L")
+QUICK = ("W1", "W2", "W5f", "W7", "W8", "W2p", "W1b", "W7L", "W7nL")
+ALL = ("W1", "W2", "W3", "W4", "W5", "W5f", "W6", "W7", "W8", "W9", "W1p", "W2p", "W1b", "W1P", "W7L", "W9L", "W1L", "W2L", "W5L", "W7n", "W7nL")
 
 
 def norm(text, base):
@@ -79,7 +79,7 @@ def cases(tier, seed):
                 out.append(dict(workload=wl, k=k, name=op["name"], ordinal=op["ordinal"], proc=op["proc"],
                                 text=norm(op["text"], base), rel_paths=rel, snap=snap,
                                 total=sum(1 for o in ops if o["mutating"])))
-                if wl in ("W1", "W2", "W5", "W7", "W9") and (tier != "quick" or wl == "W1"):
+                if wl in ("W1", "W2", "W5", "W7", "W7n", "W9") and (tier != "quick" or wl == "W1"):
                     # the same points with SIGINT: the interpreter dies by KeyboardInterrupt and unwinds its stack
                     out.append(dict(out[-1], signal="INT"))
     return out
@@ -236,12 +236,12 @@ def observe(wl, base):
             except Exception:
                 pass
         return bad
-    if wl == "W7":
+    if wl in ("W7", "W7n"):  # W7n: no file before the step, so only the new object (or no readable file) is acceptable
         try:
             got = yaw.CorrFunc.from_file(os.path.join(base, "cf.hdf"))
         except Exception:
             return bad
-        if not (got == F[("cf", "old")] or got == F[("cf", "new")]):
+        if not ((wl == "W7" and got == F[("cf", "old")]) or got == F[("cf", "new")]):
             bad.append(("reads-back-neither-old-nor-new", "CorrFunc file reads back as neither the old nor the new object"))
     elif wl == "W8":
         try:
